@@ -22,6 +22,12 @@ pub trait MT: Copy + core::fmt::Debug + 'static {
     fn write(&mut self, path: &str, r: usize, c: usize, v: Self::S) -> bool;
     fn read(&self, path: &str) -> Option<MObs<Self::S>>;
     /// expected Debug/Display text from the per-column vector formatter
+    /// slice and column/row API (C18)
+    fn from_cols_slice_(s: &[Self::S]) -> Self;
+    fn write_cols_to_slice_(&self, s: &mut [Self::S]);
+    fn col_(&self, _i: usize) -> Option<Vec<Self::S>> { None }
+    fn col_mut_(&mut self, _i: usize) -> bool { false }
+    fn row_(&self, _i: usize) -> Option<Vec<Self::S>> { None }
     fn fmt_expected(f: &[Self::S], debug: bool) -> String;
     /// Display with the precision flag `{:.2}` forwarded to every column
     fn fmt_expected_prec(f: &[Self::S]) -> String;
@@ -60,6 +66,11 @@ macro_rules! impl_mt_square {
             const NAME: &'static str = stringify!($M);
             fn from_flat(f: &[$S]) -> Self { $M::from_cols_array(&arr1d!(f, $NN)) }
             fn flat(&self) -> Vec<$S> { self.to_cols_array().to_vec() }
+            fn from_cols_slice_(s: &[$S]) -> Self { $M::from_cols_slice(s) }
+            fn write_cols_to_slice_(&self, s: &mut [$S]) { self.write_cols_to_slice(s) }
+            fn col_(&self, i: usize) -> Option<Vec<$S>> { let v = self.col(i); Some((0..$N).map(|r| v[r]).collect()) }
+            fn col_mut_(&mut self, i: usize) -> bool { let _c = self.col_mut(i); true }
+            fn row_(&self, i: usize) -> Option<Vec<$S>> { let v = self.row(i); Some((0..$N).map(|r| v[r]).collect()) }
             fn ctor(path: &str, f: &[$S]) -> Option<Self> {
                 Some(match path {
                     "from_cols_array" => $M::from_cols_array(&arr1d!(f, $NN)),
@@ -141,6 +152,8 @@ macro_rules! impl_mt_affine {
             const NAME: &'static str = stringify!($M);
             fn from_flat(f: &[$S]) -> Self { $M::from_cols_array(&arr1d!(f, $RC)) }
             fn flat(&self) -> Vec<$S> { self.to_cols_array().to_vec() }
+            fn from_cols_slice_(s: &[$S]) -> Self { $M::from_cols_slice(s) }
+            fn write_cols_to_slice_(&self, s: &mut [$S]) { self.write_cols_to_slice(s) }
             fn ctor(path: &str, f: &[$S]) -> Option<Self> {
                 Some(match path {
                     "from_cols_array" => $M::from_cols_array(&arr1d!(f, $RC)),
